@@ -194,7 +194,7 @@ fn judge_os(run: &Run, path: &str) -> Vec<(String, String)> {
 
 pub fn run(ctx: &Ctx) -> Collector {
     let col = Collector::new("C19", "fault_enumeration");
-    col.set_rule("cases = for SvgBuilder::to_file and ImageBuilder::to_file on 8 (thorough 14) builder/symbol targets whose output sizes range from 0.3 KB to 0.5 MB and straddle the 4 KiB, 8 KiB and 64 KiB buffer sizes: (i) real OS faults: missing directory, path is a directory, /dev/full (ENOSPC at write time), path containing NUL, empty path, long paths with multi-byte characters at four alignments, a 300-character name; (i') no fault over 7 kinds of file already present (identical, same length differing in the last / first / one late byte, longer, shorter, empty); (ii) faults injected below the crate by an LD_PRELOAD shim over open/open64/openat/write/close: ALL fault sequences of up to 2 deviations, a deviation = (k-th open of the target, class in {EACCES, EROFS, ENOENT, EISDIR, ENOSPC, EMFILE}) or (k-th write to the target, class in {ENOSPC, EIO, EDQUOT, EINTR, short 1 byte, short n/2, short n-1}), k ranging over every call index in the syscall log of the run being extended (DFS over prefixes); each run is a child process calling the real to_file, once with no file present and once over a stale 1 MiB file (longer than any output); oracle: no panic/abort; Ok => file bytes = to_str()/to_bytes() of the same builder; a delivered hard fault => Err; retryable faults (EINTR, short writes) may end either way; non-trivial = a fault was delivered; distinct = distinct (target, plan) pairs with distinct syscall logs");
+    col.set_rule("cases = for SvgBuilder::to_file and ImageBuilder::to_file on 8 (thorough 14) builder/symbol targets whose output sizes range from 0.3 KB to 0.5 MB and straddle the 4 KiB, 8 KiB and 64 KiB buffer sizes: (i) real OS faults: missing directory, path is a directory, /dev/full (ENOSPC at write time), path containing NUL, empty path, long paths with multi-byte characters at four alignments, a 300-character name; (i') no fault over 7 kinds of file already present (identical, same length differing in the last / first / one late byte, longer, shorter, empty); (ii) faults injected below the crate by an LD_PRELOAD shim over open/open64/openat/write/close: ALL fault sequences of up to 2 (thorough 3) deviations, a deviation = (k-th open of the target, class in {EACCES, EROFS, ENOENT, EISDIR, ENOSPC, EMFILE}) or (k-th write to the target, class in {ENOSPC, EIO, EDQUOT, EINTR, short 1 byte, short n/2, short n-1}), k ranging over every call index in the syscall log of the run being extended (DFS over prefixes); each run is a child process calling the real to_file, once with no file present and once over a stale 1 MiB file (longer than any output); oracle: no panic/abort; Ok => file bytes = to_str()/to_bytes() of the same builder; a delivered hard fault => Err; retryable faults (EINTR, short writes) may end either way; non-trivial = a fault was delivered; distinct = distinct (target, plan) pairs with distinct syscall logs");
     col.assume("the OS below the syscall boundary is modelled by the shim's fault classes; faults at close/fsync are not modelled because the crate does not call fsync and ignores close errors like std does");
     let thorough = ctx.tier.thorough();
     let dir = format!("{}/scratch/c19-{}", ctx.verif_dir, std::process::id());
@@ -209,6 +209,7 @@ pub fn run(ctx: &Ctx) -> Collector {
     if thorough {
         targets.extend([("svgd", 2), ("svgd", 3), ("svgd", 40), ("svg", 25), ("pngd", 40), ("png", 25)]);
     }
+    let max_dev: usize = if thorough { 3 } else { 2 };
     let runs = AtomicU64::new(0);
     let delivered = AtomicU64::new(0);
     let fault_points = AtomicU64::new(0);
@@ -337,7 +338,7 @@ pub fn run(ctx: &Ctx) -> Collector {
                 for (k, w) in judge(&run, file, &expected, &plan) {
                     col.violation((2, ti as u64), format!("C19/{}", k), format!("{} v{}{}: {}", kind, v, if stale { " (stale file present)" } else { "" }, w), json!({"kind": "fault", "target": kind, "version": v, "plan": plan, "stale_file": stale, "syscall_log": run.log}));
                 }
-                if plan.len() < 2 {
+                if plan.len() < max_dev {
                     // extend with a deviation at every call index at or after the last deviation seen in this run's log
                     let last_open = plan.iter().filter(|p| p.starts_with("open:")).filter_map(|p| p.split(':').nth(1)?.parse::<usize>().ok()).max().unwrap_or(0);
                     let last_write = plan.iter().filter(|p| p.starts_with("write:")).filter_map(|p| p.split(':').nth(1)?.parse::<usize>().ok()).max().unwrap_or(0);
@@ -368,7 +369,7 @@ pub fn run(ctx: &Ctx) -> Collector {
     col.set("child_runs", json!(runs.load(Ordering::Relaxed)));
     col.set("runs_with_a_delivered_fault", json!(delivered.load(Ordering::Relaxed)));
     col.set("fault_points", json!(fault_points.load(Ordering::Relaxed)));
-    col.set("max_deviations", json!(2));
+    col.set("max_deviations", json!(max_dev));
     col.space(json!({"name": "fault sequences", "cases": runs.load(Ordering::Relaxed), "targets": targets.iter().map(|(k, v)| format!("{} v{}", k, v)).collect::<Vec<_>>(), "what": "5 real OS faults + all injected fault sequences of <= 2 deviations per target, each with and without a stale file", "exhaustive": true}));
     col.sample(json!({"kind": "fault", "target": "svg", "version": 1, "plan": ["write:1:SHORTHALF", "write:2:ENOSPC"], "stale_file": false}));
     col.sample(json!({"kind": "fault", "target": "png", "version": 10, "plan": ["open:1:EROFS"], "stale_file": true}));
